@@ -55,7 +55,10 @@ type Result struct {
 	ErrTok *Tok    // first non-empty token that reached the furthest end during the attempt (nil: none)
 	XTrace []Trace // execution-order trace of every action reached (no-AST model)
 	Budget bool    // step budget exhausted: result is not to be judged
-	Stats  Stats
+	// Unspecified: the run tested a rune against a class whose documented meaning does not
+	// settle the answer (mixed-case bounds of a case-insensitive range): not to be judged
+	Unspecified bool
+	Stats       Stats
 }
 
 type budgetExceeded struct{}
@@ -73,6 +76,7 @@ type interp struct {
 	xb, xe         int
 	visits         map[[2]int]int8 // (rule,pos) -> 1 failed, 2 succeeded
 	lookaheadDepth int
+	unspecified    bool
 }
 
 // Run interprets rule `entry` of g on input.
@@ -94,6 +98,7 @@ func Run(g *gram.Grammar, entry int, input []rune, budget int) (res Result) {
 		res.Root = kids[0]
 	}
 	res.ErrTok = it.errTok
+	res.Unspecified = it.unspecified
 	res.XTrace = it.xtrace
 	res.Stats = it.st
 	return res
@@ -200,7 +205,11 @@ func (it *interp) eval(e *gram.Expr, pos int, out *[]*Node) (int, bool) {
 				break
 			}
 		}
-		if gram.MatchItems(e.Items, c, e.CI) != e.Neg {
+		m, unspec := gram.ClassMatch(e.Items, c, e.CI)
+		if unspec {
+			it.unspecified = true
+		}
+		if m != e.Neg {
 			if c >= 0x80 {
 				it.st.MultiByteConsumed = true
 			}
